@@ -48,8 +48,22 @@ fn size_matching(size: &Size) -> String {
     }
 }
 
+/// The amount of bytes of the described size. `count * mult` may exceed `u64`, so the constant is
+/// computed in `u128` and emitted exactly.
+fn exact_byte_size(size: &Size) -> u128 {
+    let (Size::Byte(s)
+    | Size::Word(s)
+    | Size::Block(s)
+    | Size::KiloByte(s)
+    | Size::MegaByte(s)
+    | Size::GigaByte(s)
+    | Size::TeraByte(s)) = size;
+
+    (*s as u128) * (size.mult() as u128)
+}
+
 fn compile_size_comp(buffer: &mut String, comp: &Comparison<Size>) {
-    buffer.push_str(&format_cmp!(comp, size_matching, Size::byte_size));
+    buffer.push_str(&format_cmp!(comp, size_matching, exact_byte_size));
 }
 
 fn compile_time_comp(buffer: &mut String, field: &str, comp: &Comparison<TimeSpec>) {
